@@ -13,7 +13,9 @@ import "fmt"
 // TailKinds lists the shapes; each takes a parameter k in [0, TailMaxK].
 var TailKinds = []string{"binop-exprstmt", "unary-exprstmt", "store-local-k", "selstore-local-k", "selstore-free-k",
 	"selstore-global-k", "store-global-k", "call-k-args", "array-k-elems", "map-k-elems", "const-k", "closure-k-free",
-	"define-local-k", "load-local-k", "incdec-local-k", "if-tail", "loop-tail", "forin-tail", "return-in-branch"}
+	"define-local-k", "load-local-k", "incdec-local-k", "if-tail", "loop-tail", "forin-tail", "return-in-branch",
+	// every compound assignment operator on every kind of target
+	"compound-global", "compound-local", "compound-free", "compound-sel", "compound-index", "compound-main"}
 
 // TailMaxK is the largest operand value driven.
 const TailMaxK = 40
@@ -29,6 +31,8 @@ func TailCount(kind string) int {
 		return 4
 	case "if-tail", "loop-tail", "forin-tail", "return-in-branch":
 		return 4
+	case "compound-global", "compound-local", "compound-free", "compound-sel", "compound-index", "compound-main":
+		return len(compoundOps)
 	}
 	return TailMaxK + 1
 }
@@ -155,6 +159,28 @@ func Tails(kind string, k int) *Program {
 			body = append(body, &ForIn{Key: "i", Val: "v", X: x, Body: []Stmt{&Continue{}}})
 		default:
 			body = append(body, &ForIn{Key: "v", X: x, Body: []Stmt{&Return{X: I("v")}}})
+		}
+	case "compound-global", "compound-local", "compound-free", "compound-sel", "compound-index", "compound-main":
+		op := compoundOps[k%len(compoundOps)]
+		pre = append(pre, Def("g", N("13")), Def("m", &MapLit{Keys: []string{"v"}, Vals: []Expr{N("13")}}), Def("arr", &ArrayLit{Elems: []Expr{N("13")}}), Def("seen", Undef()))
+		switch kind {
+		case "compound-global":
+			body = append(body, &Assign{LHS: I("g"), Op: op, RHS: N("5")})
+		case "compound-local":
+			body = append(body, Def("a", N("13")), Def("show", &FuncLit{Body: []Stmt{Set(I("seen"), I("a"))}}),
+				&Assign{LHS: I("a"), Op: op, RHS: N("5")}, &ExprStmt{X: C(I("show"))}, &Assign{LHS: I("a"), Op: op, RHS: N("2")})
+		case "compound-free":
+			body = append(body, Def("a", N("13")), Def("inner", &FuncLit{Body: []Stmt{&Assign{LHS: I("a"), Op: op, RHS: N("5")}}}),
+				&ExprStmt{X: C(I("inner"))}, Set(I("seen"), I("a")), &ExprStmt{X: C(I("inner"))})
+		case "compound-sel":
+			body = append(body, &Assign{LHS: &Sel{X: I("m"), Name: "v"}, Op: op, RHS: N("5")})
+		case "compound-index":
+			body = append(body, &Assign{LHS: &Index{X: I("arr"), I: N("0")}, Op: op, RHS: N("5")})
+		case "compound-main":
+			// at the top level of the main script, also inside a loop (a leaked slot accumulates)
+			pre = append(pre, &Assign{LHS: I("g"), Op: op, RHS: N("5")},
+				&For{Init: Def("i", N("0")), Cond: B("<", I("i"), N("3")), Post: &IncDec{X: I("i"), Op: "++"},
+					Body: []Stmt{&Assign{LHS: &Sel{X: I("m"), Name: "v"}, Op: op, RHS: N("2")}}})
 		}
 	case "return-in-branch":
 		body = append(body, Def("a", N("1")))
